@@ -144,11 +144,16 @@ fn generate_g(seed: u64, _quick: bool) -> Value {
             let text = if rng.chance(2, 3) { "(car 5)\n" } else { "(define from-file 1)\nfrom-file\n" };
             forms.insert(at, json!({"t": text, "k": "eval-file"}));
         }
+        // some instances start empty and import the standard library themselves
+        let bare_start = rng.chance(1, 4);
+        if bare_start {
+            prefix.insert(0, json!({"t": "(import (scheme base) (scheme write))", "k": "lib-import"}));
+        }
         let mut all = prefix;
         all.extend(forms);
         progs.insert(
             who.to_string(),
-            json!({"forms": all, "armed": sub["armed"], "reg_text": reg_text, "file_text": file_text}),
+            json!({"forms": all, "armed": sub["armed"], "reg_text": reg_text, "file_text": file_text, "bare_start": bare_start}),
         );
     }
     // schedule: an instance is created right before its first form (A at the start); it may
@@ -226,7 +231,7 @@ fn eval_form(inst: &mut Inst, form: &Value, index: usize) -> String {
 }
 
 fn make_instance(prog: &Value, dir: &PathBuf) -> Result<Inst, crate::hashseed::PanicRecord> {
-    let mut sys = RealSys::new(true)?;
+    let mut sys = RealSys::new(!prog["bare_start"].as_bool().unwrap_or(false))?;
     sys.define_host();
     if let Some(a) = prog["armed"].as_object() {
         for (k, v) in a {
